@@ -353,13 +353,13 @@ func TestC03(t *testing.T) {
 				if !w.registered[pr.Prover] || rapid.IntRange(0, 2).Draw(rt, "opensForm") != 0 {
 					continue
 				}
-				res := w.f.Exec(storagetypes.NewMsgRequestAttestationForm(pr.Prover, pr.File.Merkle, pr.File.Owner, pr.File.Start))
+				res := w.f.Exec(newMsgRequestAttestationForm(pr.Prover, pr.File.Merkle, pr.File.Owner, pr.File.Start))
 				w.logf("%s requests an attestation form for %s -> %s", short(pr.Prover), pr.File.id(), res)
 				if form, found := w.c.App.StorageKeeper.GetAttestationForm(w.f.Ctx, pr.Prover, pr.File.Merkle, pr.File.Owner, pr.File.Start); found && res.OK() {
 					w.formsOpened++
 					if rapid.Bool().Draw(rt, "oneJudgeSigns") { // one signature of the two needed: the form stays open
 						j := form.Attestations[rapid.IntRange(0, len(form.Attestations)-1).Draw(rt, "judge")].Provider
-						r2 := w.f.Exec(storagetypes.NewMsgAttest(j, pr.Prover, pr.File.Merkle, pr.File.Owner, pr.File.Start))
+						r2 := w.f.Exec(newMsgAttest(j, pr.Prover, pr.File.Merkle, pr.File.Owner, pr.File.Start))
 						w.logf("%s signs it -> %s", short(j), r2)
 					}
 				}
